@@ -127,9 +127,9 @@ extern "C" void vx_nary()
   VX_WITNESS();
   (void)code;
   /* C05: frame condition - also when the node raised */
-  if (A[0].lval) verif_assert(unchanged(A[0]), "C05: lvalue argument 1 unchanged by evaluation");
-  if (VX_NARGS > 1 && A[1].lval) verif_assert(unchanged(A[1]), "C05: lvalue argument 2 unchanged by evaluation");
-  if (VX_NARGS > 2 && A[2].lval) verif_assert(unchanged(A[2]), "C05: lvalue argument 3 unchanged by evaluation");
+  if (A[0].lval) verif_assert(unchanged(A[0]), "C05/C10: lvalue argument 1 unchanged by evaluation");
+  if (VX_NARGS > 1 && A[1].lval) verif_assert(unchanged(A[1]), "C05/C10: lvalue argument 2 unchanged by evaluation");
+  if (VX_NARGS > 2 && A[2].lval) verif_assert(unchanged(A[2]), "C05/C10: lvalue argument 3 unchanged by evaluation");
   if (!thrown) {
     bool typed = VX_K0 != K_NOTYPE && (VX_NARGS < 2 || VX_K1 != K_NOTYPE) && (VX_NARGS < 3 || VX_K2 != K_NOTYPE);
     if (typed && st.major() != Type::NO_TYPE)
